@@ -101,6 +101,15 @@ Close(env, res) ==
            /\ phase' = "closed" /\ sess' = sess /\ UNCHANGED <<buf, opt>>
 
 (***************************************************************************)
+(* The session object is shared with the connections that resumed it (and   *)
+(* with the session cache): when one of them fails fatally the session is   *)
+(* dead for all of them - nothing this connection does later revives it.    *)
+(***************************************************************************)
+SiblingFails ==
+  /\ sess' = IF sess = "none" THEN "none" ELSE "dead"
+  /\ UNCHANGED <<phase, buf, opt>>
+
+(***************************************************************************)
 (* Model-checking view: the environment and the caller choose freely        *)
 (***************************************************************************)
 Envs == {"ok", "data", "close_notify", "warning", "fatal", "eof", "reset", "epipe", "fatalsend"}
@@ -111,6 +120,7 @@ MCNext == \E env \in Envs, res \in Results :
    \/ \E a \in 0..1, n \in 0..2 : Read(env, a, res, n) /\ last' = [api |-> "read", env |-> env, res |-> res, pre |-> phase]
    \/ Write(env, res) /\ last' = [api |-> "write", env |-> env, res |-> res, pre |-> phase]
    \/ Close(env, res) /\ last' = [api |-> "close", env |-> env, res |-> res, pre |-> phase]
+   \/ SiblingFails /\ last' = [api |-> "sibling", env |-> "-", res |-> "-", pre |-> phase]
 MCInit0 == MCInit /\ last = [api |-> "-", env |-> "-", res |-> "-", pre |-> "-"]
 MCSpec == MCInit0 /\ [][MCNext]_<<cvars, last>>
 
@@ -126,5 +136,7 @@ NoCompleteAfterFault == (last.api = "handshake" /\ last.res \notin {"ok", "Value
 FatalAlertSurfaced == (last.env = "fatal" /\ ((last.api = "read" /\ last.pre = "open") \/ (last.api = "handshake" /\ last.pre # "open"))) => last.res = "RemoteAlertFatal"
 CleanCloseKeepsResumable == [][(last'.env = "close_notify" /\ last'.api = "read" /\ sess = "resumable" /\ phase = "open") => sess' = "resumable"]_<<cvars, last>>
 ClosedStaysClosed == [][(phase = "closed" /\ last'.api # "handshake") => phase' = "closed"]_<<cvars, last>>
+\* a session that was invalidated is never resumable again through this connection (only a new handshake makes a new one)
+DeadStaysDead == [][(sess = "dead" /\ last'.api # "handshake") => sess' = "dead"]_<<cvars, last>>
 WriteAfterCloseRaises == (last.api = "write" /\ last.res = "ok") => phase = "open"
 =============================================================================
